@@ -52,6 +52,9 @@ var glUnits = []glUnit{
 		{"protocol/jt808", "JTMessage", "Decode"},
 		{"protocol/jt808", "Header", "Encode"},
 	}},
+	{"GoParse", []glTarget{
+		{"service", "packageParse", "unpack"},
+	}},
 	{"GoRtp", []glTarget{
 		{"protocol/jt1078", "Packet", "Decode"},
 	}},
@@ -139,6 +142,11 @@ var glUnits = []glUnit{
 	}},
 }
 
+type glStruct struct {
+	name string
+	st   *types.Struct
+}
+
 type glFn struct {
 	obj      *types.Func
 	decl     *ast.FuncDecl
@@ -156,7 +164,8 @@ type glFn struct {
 type gl struct {
 	pkgs         map[string]*packages.Package
 	fns          map[*types.Func]*glFn
-	structs      []*types.Named
+	structs      []glStruct
+	anon         map[string]string // anonymous struct types (by type string) -> Lean name
 	structSeen   map[*types.Named]bool
 	structByName map[string]bool
 	out          strings.Builder // definitions, in dependency order
@@ -258,6 +267,8 @@ func (g *gl) leanType(t types.Type) string {
 		return g.leanType(x.Underlying())
 	case *types.Alias:
 		return g.leanType(types.Unalias(x))
+	case *types.Struct:
+		return g.needAnon(x)
 	case *types.Basic:
 		switch x.Kind() {
 		case types.Int, types.Int64, types.UntypedInt, types.UntypedRune:
@@ -314,7 +325,28 @@ func (g *gl) needStruct(n *types.Named) string {
 	for i := 0; i < st.NumFields(); i++ {
 		g.leanType(st.Field(i).Type()) // registers nested structs first
 	}
-	g.structs = append(g.structs, n)
+	g.structs = append(g.structs, glStruct{name, st})
+	return name
+}
+
+// an anonymous struct type (the type of a field such as Message.ExtensionFields): named after its field names
+func (g *gl) needAnon(st *types.Struct) string {
+	key := types.TypeString(st, nil)
+	if g.anon == nil {
+		g.anon = map[string]string{}
+	}
+	if n, ok := g.anon[key]; ok {
+		return n
+	}
+	name := fmt.Sprintf("anon%d", len(g.anon)+1)
+	for i := 0; i < st.NumFields() && i < 2; i++ {
+		name += "_" + st.Field(i).Name()
+	}
+	g.anon[key] = name
+	for i := 0; i < st.NumFields(); i++ {
+		g.leanType(st.Field(i).Type())
+	}
+	g.structs = append(g.structs, glStruct{name, st})
 	return name
 }
 
@@ -344,8 +376,8 @@ func (g *gl) zero(t types.Type) string {
 func (g *gl) emitStructs() string {
 	var b strings.Builder
 	for _, n := range g.structs {
-		st := n.Underlying().(*types.Struct)
-		name := g.structName(n)
+		st := n.st
+		name := n.name
 		fmt.Fprintf(&b, "structure %s where\n", name)
 		var zs []string
 		for i := 0; i < st.NumFields(); i++ {
@@ -506,7 +538,7 @@ func doGoLean(repo, out string) error {
 		}
 		var names []string
 		for _, n := range g.structs {
-			names = append(names, g.structName(n))
+			names = append(names, n.name)
 		}
 		for _, fn := range g.fns {
 			if fn.done && fn.ok && fn.unit == "" {
